@@ -106,10 +106,10 @@ class World:
                 self.log.append(["closed", self.idx(c)])
         self.selected = now
 
-    def connect(self):
+    def connect(self, before=(), after=(), elist=()):
+        """the listener is readable (one accept); `before` / `after` = other readable connections of the same select round"""
         i = len(self.socks)
         s = Sock(self, i); self.socks.append(s); self.L.q.append(s)
-        before = len(self.selected)
         # the Connection is created inside the task; its listeners are attached right after (nothing is raised in __init__)
         self.cons.append(None)
         old_init = self.chk.of_01.Connection.__init__
@@ -119,7 +119,7 @@ class World:
             old_init(con, sock)
         self.chk.of_01.Connection.__init__ = init_and_record
         try:
-            self._resume([self.L], [], [])
+            self._resume(list(before) + [self.L] + list(after), [], list(elist))
         finally:
             self.chk.of_01.Connection.__init__ = old_init
         con = self.cons[i]
@@ -153,6 +153,21 @@ class World:
         if via == "err": self._resume([], [], [self.cons[i]])
         else: self._resume([self.cons[i]], [], [])                  # recv() answers b"" : EOF
         return True
+
+    def round(self, elist, ritems):
+        """ONE select round with several things at once: connections with an error condition, then readable ones in the given order
+        (each with its data, or nothing = EOF), at most one of them the listener"""
+        if self.dead_task: return
+        e = [self.cons[c] for c in elist if self.is_selected(c)]
+        before, after, new = [], [], False
+        for it in ritems:
+            if it == "new": new = True; continue
+            c, data = it
+            if not self.is_selected(c): continue
+            if data: self.socks[c].chunks.append(data)
+            (after if new else before).append(self.cons[c])
+        if new: self.connect(before, after, e)
+        else: self._resume(before, [], e)
 
     def finish(self):
         """let the task loop end the way it does at shutdown (core.running False) so the generator is not left suspended"""
@@ -402,6 +417,14 @@ class C09(Check):
         for op in case["ops"]:                                       # build every template first: library constructors draw xids
             if op["op"] == "recv":
                 for m in op["msgs"]: self.msg_bytes(m, 0)
+        self._objs = {}
+        for op in case["ops"]:
+            if op["op"] == "round":
+                for it in op.get("r", []):
+                    if it != "new":
+                        for m in it.get("msgs", []): self.msg_bytes(m, 0)
+            if op["op"] == "sendto" and op.get("obj"):
+                o = self.of.ofp_barrier_request(); o.xid = op["x"]; self._objs[op["x"]] = o
         w = World(self)
         self.listeners = dict(case.get("listeners") or {})
         steps, resolved, regs, states = [], [], [], []
@@ -426,18 +449,47 @@ class C09(Check):
                     r = dict(m); r["x"] = x; r.pop("r", None); r["op"] = "msg"; r["c"] = c
                     resolved.append(r)
                 if c < len(w.cons): w.recv(c, data)
+            elif k == "round":
+                # several events in one select round; the task handles the error list first, then the readable ones in order
+                good = {}
+                for e in w.log:
+                    if e[0] == "sent" and e[2] == T_BARRIER_REQ: good[e[1]] = e[3]
+                for c in op.get("e", []): resolved.append({"op": "eof", "c": c})
+                ritems = []
+                for it in op.get("r", []):
+                    if it == "new":
+                        resolved.append({"op": "connect"}); ritems.append("new"); continue
+                    c, data = it["c"], b""
+                    for m in it.get("msgs", []):
+                        x = m.get("x", 0)
+                        if x == "good": x = good.get(c, BAD_XID)
+                        data += self.msg_bytes(m, x)
+                        r = dict(m); r["x"] = x; r.pop("r", None); r["op"] = "msg"; r["c"] = c
+                        resolved.append(r)
+                    if not it.get("msgs"): resolved.append({"op": "eof", "c": c})
+                    assert len(data) <= 2048
+                    ritems.append((c, data))
+                w.round([c for c in op.get("e", []) if c < len(w.cons)], [it for it in ritems if it == "new" or it[0] < len(w.cons)])
             elif k == "lose":
                 resolved.append({"op": "eof", "c": op["c"]})
                 if op["c"] < len(w.cons): w.lose(op["c"], op.get("via", "eof"))
             elif k == "disc":
                 resolved.append({"op": "disc", "c": op["c"]})
-                if op["c"] < len(w.cons): w.cons[op["c"]].disconnect()
+                if op["c"] < len(w.cons):                             # the three ways a component may call it
+                    how = op.get("how", 0)
+                    if how == 1: w.cons[op["c"]].disconnect("dropped by the application")
+                    elif how == 2: w.cons[op["c"]].disconnect(msg="dropped by the application", defer_event=False)
+                    else: w.cons[op["c"]].disconnect()
             elif k == "sockfail":
                 resolved.append({"op": "sockfail", "c": op["c"]})
                 if op["c"] < len(w.cons): w.socks[op["c"]].broken = True
             elif k == "sendto":
                 resolved.append({"op": "sendto", "d": op["d"], "x": op["x"]})
-                ret = w.nexus.sendToDPID(op["d"], hdr(T_BARRIER_REQ, 8, op["x"]))
+                if op.get("obj"):                                     # a message object instead of bytes (built before the run: see msg_objs)
+                    ret = w.nexus.sendToDPID(op["d"], self._objs[op["x"]])
+                else:
+                    ret = w.nexus.sendToDPID(dpid=op["d"], data=hdr(T_BARRIER_REQ, 8, op["x"])) if op.get("kw") else \
+                          w.nexus.sendToDPID(op["d"], hdr(T_BARRIER_REQ, 8, op["x"]))
                 w.log.append(["ret", bool(ret)])
             else:
                 raise KeyError(k)
@@ -448,7 +500,21 @@ class C09(Check):
         w.finish()
         self.listeners = {}
         return {"steps": steps, "resolved": resolved, "regs": regs, "states": states, "dead_task": w.dead_task,
-                "next_xid": nx, "nsteps": [len(op["msgs"]) if op["op"] == "recv" else 1 for op in case["ops"]]}
+                "next_xid": nx, "nsteps": [self.nsteps(op) for op in case["ops"]]}
+
+    @staticmethod
+    def round_norm(op, outs):
+        """within one select round the harness sees which connections the task dropped only when the round is over: compare the
+        'closed' markers of a round as a set at its end"""
+        if op["op"] != "round": return outs
+        return [e for e in outs if e[0] != "closed"] + sorted(e for e in outs if e[0] == "closed")
+
+    @staticmethod
+    def nsteps(op):
+        if op["op"] == "recv": return len(op["msgs"])
+        if op["op"] == "round":
+            return len(op.get("e", [])) + sum(1 if it == "new" else max(1, len(it.get("msgs", []))) for it in op.get("r", []))
+        return 1
 
     # ------------------------------------------------------------------ model glue
     OLD_CFG = {"d3": False, "down": False, "read": False, "err": False, "dpid": False}
@@ -456,9 +522,9 @@ class C09(Check):
         ds = set()
         for op in case["ops"]:
             if op["op"] == "sendto": ds.add(op["d"])
-            if op["op"] == "recv":
-                for m in op["msgs"]:
-                    if m["m"] == "features_reply": ds.add(m["d"])
+            msgs = op["msgs"] if op["op"] == "recv" else [m for it in op.get("r", []) if it != "new" for m in it.get("msgs", [])] if op["op"] == "round" else []
+            for m in msgs:
+                if m["m"] == "features_reply": ds.add(m["d"])
         return sorted(ds)
 
     def model_request2(self, case, obs):
@@ -472,7 +538,7 @@ class C09(Check):
     def impl_view(self, case, obs):
         if obs.get("dead_task"): return {"dead_task": obs["dead_task"]}
         final = obs["regs"][-1] if obs["regs"] else []
-        return {"steps": [[e for e in st if e[0] not in ("in", "hsendto")] for st in obs["steps"]],
+        return {"steps": [self.round_norm(op, [e for e in st if e[0] not in ("in", "hsendto")]) for op, st in zip(case["ops"], obs["steps"])],
                 "reg": [[d, dict((k, v) for k, v in final if k is not None).get(d)] for d in self.dpids_of(case)],
                 "regnone": dict((str(k), v) for k, v in final).get("None"),
                 "conns": obs["states"][-1] if obs["states"] else [], "next_xid": obs["next_xid"]}
@@ -481,10 +547,10 @@ class C09(Check):
         if "error" in resp: return resp
         steps, it = [], iter(resp["steps"])
         for op in case["ops"]:
-            n = len(op["msgs"]) if op["op"] == "recv" else 1
+            n = self.nsteps(op)
             grp = []
             for _ in range(n): grp += next(it)
-            steps.append(grp)
+            steps.append(self.round_norm(op, grp))
         return {"steps": steps, "reg": resp["reg"], "regnone": resp["regnone"], "conns": resp["conns"], "next_xid": resp["next_xid"]}
 
     # ------------------------------------------------------------------ generators
@@ -634,9 +700,110 @@ class C09(Check):
             if o["op"] == "sendto": o["d"] = f(o["d"])
             elif o["op"] == "recv":
                 o["msgs"] = [dict(m, d=f(m["d"])) if m["m"] == "features_reply" else m for m in o["msgs"]]
+            elif o["op"] == "round":
+                o["r"] = [it if it == "new" else dict(it, msgs=[dict(m, d=f(m["d"])) if m["m"] == "features_reply" else m for m in it.get("msgs", [])])
+                          for it in o.get("r", [])]
             ops.append(o)
         c = dict(case); c["ops"] = ops; c["tag"] = case.get("tag", "") + "/dpid%s" % sorted(mp.items())[0][1]
         return c
+
+    @staticmethod
+    def shift(case, k, prelude, tag):
+        """the same history with every connection index raised by k, after `prelude` (which creates k connections)"""
+        ops = []
+        for o in case["ops"]:
+            o = dict(o)
+            if "c" in o: o["c"] += k
+            if o["op"] == "round":
+                o["e"] = [c + k for c in o.get("e", [])]
+                o["r"] = [it if it == "new" else dict(it, c=it["c"] + k) for it in o.get("r", [])]
+            ops.append(o)
+        c = dict(case); c["ops"] = list(prelude) + ops; c["tag"] = case.get("tag", "") + tag
+        return c
+
+    def high_xid_prelude(self):
+        """one established connection (datapath 9) that is sent 260 hellos: the default handler answers each with a features request, so
+        every xid drawn afterwards is above 256 — where `is` and `==` on ints part ways"""
+        ops = [{"op": "connect"}] + self.up_ops(0, 9)
+        for j in range(10):
+            ops.append({"op": "recv", "c": 0, "msgs": [self.M("hello", 300 + j)] * 26})
+        return ops
+
+    def interleaved_handshakes(self):
+        """two connections whose handshakes interleave in every way (each connection's handshake state must be its own)"""
+        def merges(a, b):
+            if not a: yield list(b); return
+            if not b: yield list(a); return
+            for r in merges(a[1:], b): yield [a[0]] + r
+            for r in merges(a, b[1:]): yield [b[0]] + r
+        for da, db in ((5, 5), (5, 6)):
+            for fin in ("barrier", "error"):
+                A = [(0, m) for m in self.hs_msgs(da, fin)[:2]] + [(0, self.M("port_status", 41)), (0, self.hs_msgs(da, fin)[3])]
+                B = [(1, m) for m in self.hs_msgs(db, "barrier")[:2]] + [(1, self.M("port_status", 42)), (1, self.hs_msgs(db, "barrier")[3])]
+                for seq in merges(A, B):
+                    ops = [{"op": "connect"}, {"op": "connect"}] + [{"op": "recv", "c": c, "msgs": [m]} for c, m in seq]
+                    ops += [{"op": "sendto", "d": da, "x": 901}, {"op": "sendto", "d": db, "x": 902}, {"op": "lose", "c": 1}, {"op": "sendto", "d": db, "x": 903},
+                            {"op": "lose", "c": 0}, {"op": "sendto", "d": da, "x": 904}]
+                    yield {"ops": ops, "tag": "interleaved-handshakes"}
+
+    def rounds(self):
+        """several events in ONE select round: error list and readable list together, two readable connections in both orders, an
+        accept next to data, the barrier reply of the new connection next to the EOF of the stale one"""
+        M, up = self.M, self.up_ops
+        C = {"op": "connect"}
+        def S(d, x): return {"op": "sendto", "d": d, "x": x}
+        half = lambda c, d: [{"op": "recv", "c": c, "msgs": [M("hello", 1), M("features_reply", 2, d=d)]}]
+        bar = lambda c: {"c": c, "msgs": [M("barrier_reply", "good")]}
+        eof = lambda c: {"c": c}
+        for d1 in (5, 6):
+            pre = [C] + up(0, 5) + [C] + half(1, d1)
+            for r in ([bar(1), eof(0)], [eof(0), bar(1)], [bar(1), {"c": 0, "msgs": [M("port_status", 33), M("echo_request", 34)]}]):
+                yield {"ops": pre + [{"op": "round", "r": r}, S(5, 1), S(6, 2), {"op": "lose", "c": 1}, S(5, 3), {"op": "lose", "c": 0}, S(5, 4)], "tag": "round"}
+            yield {"ops": pre + [{"op": "round", "e": [0], "r": [bar(1)]}, S(5, 1), S(6, 2), {"op": "lose", "c": 1}, S(5, 3)], "tag": "round"}
+            yield {"ops": pre + [{"op": "round", "e": [1], "r": [{"c": 0, "msgs": [M("port_status", 33)]}]}, S(5, 1), {"op": "lose", "c": 0}], "tag": "round"}
+            yield {"ops": pre + [{"op": "round", "e": [0, 1]}, S(5, 1), S(6, 2)], "tag": "round"}
+            yield {"ops": pre + [{"op": "round", "r": [eof(0), eof(1)]}, S(5, 1), S(6, 2)], "tag": "round"}
+            yield {"ops": pre + [{"op": "round", "r": [eof(1), "new", eof(0)]}, {"op": "recv", "c": 2, "msgs": [M("hello", 1), M("features_reply", 2, d=d1)]},
+                                 {"op": "recv", "c": 2, "msgs": [M("barrier_reply", "good")]}, S(5, 1), S(6, 2), {"op": "lose", "c": 2}, S(d1, 3)], "tag": "round"}
+            yield {"ops": [C] + up(0, 5) + [{"op": "round", "r": ["new", {"c": 0, "msgs": [M("packet_in", 7)]}]}] + half(1, d1) +
+                          [{"op": "round", "r": [{"c": 0, "msgs": [M("port_status", 8)]}, bar(1)]}, S(5, 1), S(6, 2),
+                           {"op": "round", "e": [1], "r": [eof(0)]}, S(5, 3), S(6, 4)], "tag": "round"}
+
+    @staticmethod
+    def merge_rounds(case, rng):
+        """some neighbouring reads / losses / accepts of a random history happen in ONE select round instead of one after the other"""
+        ops, out, i = case["ops"], [], 0
+        def item(o):
+            if o["op"] == "connect": return "new"
+            if o["op"] == "recv" and sum(len(m.get("body", "")) for m in o["msgs"]) == 0 and len(o["msgs"]) <= 2 and \
+               not any(m["m"] in ("stats_desc", "features_reply") for m in o["msgs"]): return {"c": o["c"], "msgs": o["msgs"]}
+            if o["op"] == "lose" and o.get("via", "eof") == "eof": return {"c": o["c"]}
+            return None
+        created = 0                                                  # connections accepted before the current position
+        while i < len(ops):
+            a = item(ops[i])
+            b_ = item(ops[i + 1]) if i + 1 < len(ops) else None
+            distinct = a is not None and b_ is not None and not (a == "new" and b_ == "new") and \
+                       (a == "new" or b_ == "new" or a["c"] != b_["c"]) and \
+                       all(it == "new" or it["c"] < created for it in (a, b_))   # only a connection that exists can be readable
+            if distinct and rng.random() < 0.5:
+                out.append({"op": "round", "r": [a, b_]}); i += 2
+                created += sum(1 for it in (a, b_) if it == "new")
+            else:
+                out.append(ops[i]); created += 1 if ops[i]["op"] == "connect" else 0; i += 1
+        c = dict(case); c["ops"] = out
+        return c
+
+    def conventions(self):
+        """the API called the other ways: disconnect(msg) positionally / by keyword, sendToDPID by keyword / with a message object"""
+        C = {"op": "connect"}
+        for how in (1, 2):
+            for p in (2, 4):
+                hsops = self.up_ops(0, 5, mode=0)
+                yield {"ops": [C] + hsops[:p] + [{"op": "disc", "c": 0, "how": how}] + hsops[p:] +
+                              [{"op": "sendto", "d": 5, "x": 1, "kw": True}, {"op": "lose", "c": 0}, {"op": "sendto", "d": 5, "x": 2, "obj": True}], "tag": "conventions"}
+        yield {"ops": [C] + self.up_ops(0, 5) + [C] + self.up_ops(1, 5) + [{"op": "sendto", "d": 5, "x": 700, "obj": True}, {"op": "disc", "c": 1, "how": 1},
+                      {"op": "sendto", "d": 5, "x": 701, "kw": True}, {"op": "disc", "c": 0, "how": 2}, {"op": "sendto", "d": 5, "x": 702, "obj": True}], "tag": "conventions"}
 
     LISTENERS = [{"up": "send"}, {"up": "sendto"}, {"down": "sendto"}, {"up": "send", "down": "sendto"}, {"up": "sendto", "down": "sendto"}]
 
@@ -669,6 +836,13 @@ class C09(Check):
             cases += [self.remap(c, mp) for c in self.specials()]
             cases += [self.remap(c, mp) for c in orders2]
         cases += [self.remap(c, self.DPID_MAPS[i % 3]) for i, c in enumerate(self.loss_points())]
+        inter = list(self.interleaved_handshakes())
+        rounds = list(self.rounds())
+        cases += inter + rounds + list(self.conventions())
+        cases += [self.remap(c, self.DPID_MAPS[i % 3]) for i, c in enumerate(rounds)]
+        # the same with every xid above 256 (one extra connection in front that burns 260 xids)
+        pre = self.high_xid_prelude()
+        cases += [self.shift(c, 1, pre, "/xid>256") for c in list(self.specials()) + inter[::7] + rounds[::2]]
         return cases
 
     def random_case(self, rng, big=False):
@@ -714,6 +888,7 @@ class C09(Check):
         for c in self._generate(rng, tier):
             r = rng.random()                                         # half of the generated histories use edge datapath ids
             c = c if r < 0.5 else self.remap(c, self.DPID_MAPS[int((r - 0.5) * 6) % 3])
+            if c.get("tag", "").startswith("random") and rng.random() < 0.3: c = self.merge_rounds(c, rng)
             if c.get("tag", "").startswith("random") and rng.random() < 0.15:
                 c = self.with_listeners(c, self.LISTENERS[rng.randrange(len(self.LISTENERS))])
             yield c
@@ -806,9 +981,15 @@ class C09(Check):
             elif tag == "closed":
                 i = e[1]
                 o = ops[k]
-                cause = (o["op"] == "lose" and o["c"] == i) or i in explicit_disc or i in broken or i in failed_connect or \
+                cause = i in self.lost_in(o) or i in explicit_disc or i in broken or i in failed_connect or \
                         (case.get("listeners") or {}).get("up") == "disc"
                 if not cause: return "close:spurious connection %d dropped by the controller although nothing in the history lost it" % i
+        # an EOF / error condition the task was shown must close that connection in that very round
+        for k, o in enumerate(ops):
+            for i in self.lost_in(o):
+                was_open = k > 0 and i < len(obs["states"][k - 1]) and not obs["states"][k - 1][i]["closed"]
+                if was_open and not obs["states"][k][i]["closed"]:
+                    return "close:missing connection %d was shown to the task as lost (EOF / error) but the task still selects on it" % i
         final = obs["states"][-1] if obs["states"] else []
         for i in range(len(final)):
             announced = ("nexus", i) in up_at
@@ -867,6 +1048,13 @@ class C09(Check):
                 if sent != want: return "sendto:inconsistent-with-registry sendToDPID(%s) wrote %s, expected %s" % (o["d"], sent, want)
             prev_reg = reg
         return None
+
+    @staticmethod
+    def lost_in(o):
+        """connections for which operation `o` shows the task an EOF or an error condition"""
+        if o["op"] == "lose": return [o["c"]]
+        if o["op"] == "round": return list(o.get("e", [])) + [it["c"] for it in o.get("r", []) if it != "new" and not it.get("msgs")]
+        return []
 
     def finding_key(self, case, obs, failure):
         return failure.split(" ")[0]
